@@ -3,6 +3,8 @@
 package main
 
 import (
+	"net"
+	"bufio"
 	"bytes"
 	"encoding/base64"
 	"encoding/json"
@@ -120,7 +122,14 @@ func runC19(c *ctx) {
 				endMs   int64
 			}
 			results := make([]res, len(sc.reqs))
-			kaClient := &http.Client{Transport: &http.Transport{MaxIdleConns: 1, MaxIdleConnsPerHost: 1, MaxConnsPerHost: 1, IdleConnTimeout: time.Minute}, Timeout: 6 * time.Second}
+			var kaMu sync.Mutex
+			var kaConn net.Conn
+			var kaRd *bufio.Reader
+			defer func() {
+				if kaConn != nil {
+					kaConn.Close()
+				}
+			}()
 			var rw sync.WaitGroup
 			for i, rq := range sc.reqs {
 				i, rq := i, rq
@@ -133,8 +142,23 @@ func runC19(c *ctx) {
 					var resp *http.Response
 					var err error
 					if rq.ka {
-						// POST is not replayed by Go's transport on a connection the server closed while idle: the failure is visible
-						resp, err = kaClient.Post(fmt.Sprintf("http://%s/slow?d=%d", bind, rq.dur), "text/plain", strings.NewReader("x"))
+						// one raw persistent connection, like an ingress controller's upstream pool: requests are written to the SAME socket; no transparent
+						// re-dial, no replay - a server that drops idle connections before the wait-before period is over is seen as a failed request
+						kaMu.Lock()
+						if kaConn == nil {
+							kaConn, err = net.DialTimeout("tcp", bind, time.Second)
+							if err == nil {
+								kaRd = bufio.NewReader(kaConn)
+							}
+						}
+						if err == nil {
+							kaConn.SetDeadline(time.Now().Add(6 * time.Second))
+							_, err = fmt.Fprintf(kaConn, "POST /slow?d=%d HTTP/1.1\r\nHost: localhost:3000\r\nContent-Type: text/plain\r\nContent-Length: 1\r\n\r\nx", rq.dur)
+							if err == nil {
+								resp, err = http.ReadResponse(kaRd, nil)
+							}
+						}
+						kaMu.Unlock()
 					} else {
 						resp, err = hc.Get(fmt.Sprintf("http://%s/slow?d=%d", bind, rq.dur))
 					}
